@@ -2,7 +2,7 @@
 import srvprops
 
 PROP = "C18"
-THEOREMS = ["C18_model_smoke"]
+THEOREMS = ["C18_join_events_exact", "C18_join_refused_no_event", "C18_leave_events_exact", "C18_replay_join_step", "C18_replay_leave_step", "C18_failed_leave_notification"]
 
 
 def run(tier, replay=None):
